@@ -564,7 +564,7 @@ def search(R, crystals, mains, c_out, aux_out, spec_out, valid):
                 for k, b in want:
                     if not mask & b: continue
                     if row[k + 'err'] != '-': failing = k; break
-                    if row[k] * deb == 0: zero_first = True; break
+                    if row[k] * deb == 0 and R.variant[3] != '1': zero_first = True; break     # repaired code (zeroFix): a zero product is a value, evaluation goes on
                 if zero_first:
                     if rc == 0 and not err: out.append(Finding(m, K_ZERO, 'a factor is exactly 0 (no elemental error): Atomic_Factors reports failure without an error', c, 'rc 1'))
                     elif rc != 1: out.append(Finding(m, None, 'a factor is exactly 0: neither success nor the known silent failure', c, 'rc 1'))
